@@ -109,4 +109,4 @@ def dec_term(ctx, n):
 
 DEC_RE = ('(re.union (str.to_re "0") (re.++ (re.range "1" "9") (re.* (re.range "0" "9"))))')
 
-REAL_FUNS = {'dec': lambda n: str(n), 'undec': lambda s: int(s)}
+REAL_FUNS = {'dec': lambda n: str(n), 'undec': lambda s: int(s), 'upper': lambda s: s.upper()}
